@@ -277,7 +277,7 @@ type c53World struct {
 	pool     []*c53Upd // genuine updates
 	thr      int
 	enforce  bool
-	bodyRoot common.Hash   // beacon body root proving the payload header below
+	bodyRoot common.Hash // beacon body root proving the payload header below
 	payload  *types.ExecutionHeader
 	payBr    merkle.Values
 	forgedN  int
@@ -523,7 +523,7 @@ type c53Run struct {
 	st    *vs.S
 	// coverage
 	reorgs, branchOnly, accepted, rejectedForged, hdrTrue, hdrFalse, reopens int
-	outcomes                                                                map[string]int
+	outcomes                                                                 map[string]int
 }
 
 type c53Snap struct {
